@@ -16,6 +16,7 @@ Stage 3  exhaustive probe of the real application (harness.app.App):
          D. the probes of SUSPECTED_DEFECTS (see there).
          E. every route below its first version under varied Accept / Content-Type: still the documented 404/405.
 """
+from harness import ppool
 import fcntl
 import json
 import os
@@ -998,7 +999,7 @@ def run(chk):
     chk.cov['matrix_cells'] = 0
     chk.cov['responses_with_header_check'] = 0
     ctx = multiprocessing.get_context('fork')
-    with ctx.Pool(nproc, initializer=_worker_init, initargs=(pred, thorough)) as pool:
+    with ppool.Pool(ctx, nproc, initializer=_worker_init, initargs=(pred, thorough)) as pool:
         results = pool.map(_worker, items, chunksize=1)
     seen = {}
     for item, rec, extra in sorted(results, key=lambda x: (x[0][0], x[0][1])):
